@@ -50,14 +50,19 @@ def request_path_contracts(reg):
     failure reaches nothing, and Proxy-Authorization never reaches the origin."""
     from pyvc.engine import SpecFun
     reg.specfuns['has_field'] = SpecFun('has_field', ['bytes', 'bytes'], 'bool')
-    G = {'connects': 'int', 'bu_raised': 'bool'}
+    G = {'connects': 'int', 'bu_raised': 'bool', 'cur_req': 'int'}
     HP = ('obj', 'HttpParser')
+    # ghost cur_req: identity of the request object the chain is currently working on.  Every hook must be
+    # handed exactly that object (call-site obligation) and what it returns becomes the current one.
+    CUR = ('receives-the-request-returned-by-the-previous-hook', 'evid(request) == cur_req')
+    NEXT = ('hands-on', 'cur_req == (old(cur_req) if isnone(result) else evid(result))')
     reg.contract('<plugin>', 'ProxyBasePlugin.before_upstream_connection', params={'request': HP},
-                 self_cls='ProxyBasePlugin', assumed=True, modifies=[], result=('opt', HP),
-                 ghost_init={'bu_raised': 'bool'}, ensures=['bu_raised == old(bu_raised)'],
+                 self_cls='ProxyBasePlugin', assumed=True, modifies=[], result=('opt', HP), requires=[CUR],
+                 ghost_init={'bu_raised': 'bool', 'cur_req': 'int'}, ensures=['bu_raised == old(bu_raised)', NEXT],
                  raises={'Exception': ['bu_raised']}, note='adversarial user/auth plugin hook; ghost bu_raised marks a rejection')
     reg.contract('<plugin>', 'ProxyBasePlugin.handle_client_request', params={'request': HP},
-                 self_cls='ProxyBasePlugin', assumed=True, modifies=[], result=('opt', HP), raises={'Exception': []})
+                 self_cls='ProxyBasePlugin', assumed=True, modifies=[], result=('opt', HP), requires=[CUR],
+                 ghost_init={'cur_req': 'int'}, ensures=[NEXT], raises={'Exception': []})
     UP_FRESH = ('not isnone(self.upstream) and len(self.upstream.buffer) == 0 and self.upstream._num_buffer == 0 '
                 'and not self.upstream.closed and not isnone(self.upstream._conn)')
     reg.contract(SV, 'HttpProxyPlugin.connect_upstream', self_cls='HttpProxyPlugin', assumed=True,
@@ -90,7 +95,8 @@ def request_path_contracts(reg):
         loops={0: LoopSpec(index='i', modifies=['self.headers'],
                            inv=["forall('j', 0, i, isnone(self.headers) or not self.headers.has(lower(headers[j])))"])})
     PRE = [('client-inv', 'self.client._num_buffer == len(self.client.buffer)'),
-           ('first-request', 'isnone(self.upstream)'), ('no-pool', 'not self.flags.enable_conn_pool')]
+           ('first-request', 'isnone(self.upstream)'), ('no-pool', 'not self.flags.enable_conn_pool'),
+           ('chain-starts-with-the-parsed-request', 'cur_req == evid(self.request)')]
     NOT_FWD = "not has_field(self.upstream.buffer[len(self.upstream.buffer) - 1], b'proxy-authorization')"
     orc = reg.contract(
         SV, 'HttpProxyPlugin.on_request_complete', self_cls='HttpProxyPlugin', requires=PRE, ghost_init=G,
@@ -103,13 +109,36 @@ def request_path_contracts(reg):
                  ('forwarded-only-after-connect', '(not isnone(self.upstream)) ==> connects == old(connects) + 1')],
         raises={'Exception': [('rejection-reaches-nothing',
                                '(bu_raised and not old(bu_raised)) ==> (connects == old(connects) and isnone(self.upstream))')]},
-        loops={0: LoopSpec(index='i', modifies=['self.request', 'r', 'do_connect'],
-                           inv=['connects == old(connects)', 'isnone(self.upstream)', 'bu_raised == old(bu_raised)']),
-               1: LoopSpec(index='i', modifies=['self.request', 'r'],
-                           inv=['connects <= old(connects) + 1', 'bu_raised == old(bu_raised)',
+        loops={0: LoopSpec(index='i', modifies=['self.request', 'r', 'do_connect', 'cur_req'],
+                           inv=['connects == old(connects)', 'isnone(self.upstream)', 'bu_raised == old(bu_raised)',
+                                'cur_req == evid(self.request)']),
+               1: LoopSpec(index='i', modifies=['self.request', 'r', 'cur_req'],
+                           inv=['connects <= old(connects) + 1', 'bu_raised == old(bu_raised)', 'cur_req == evid(self.request)',
                                 'isnone(self.upstream) or (%s)' % UP_FRESH,
                                 '(not isnone(self.upstream)) ==> connects == old(connects) + 1'])})
     return [dh, orc]
 
 
 CROSSCHECK = ['AuthPlugin.before_upstream_connection', 'HttpParser.del_header', 'HttpParser.del_headers']
+
+
+def bounded_checks(reg, tier, seed):
+    """the assumed field-emission contract of HttpParser.build, checked on the real function (bounded)"""
+    from . import C02
+    return [C02.build_emission_sweep(tier, seed)]
+
+
+def crosscheck_gens(reg):
+    def auth(g, rnd):
+        code = b'dXNlcjpwYXNz'
+        o = g.obj('AuthPlugin')
+        o.flags.auth_code = rnd.choice([code, code, None])
+        req = g.obj('HttpParser')
+        val = rnd.choice([b'Basic ' + code, b'basic ' + code, b'BASIC  ' + code, b'Basic ' + code + b' x', b'Basic', b'Basic wrong', b'Bearer abc',
+                          b'Bearer ' + code, b'Digest username="u"', code, b'', b' ', b'Negotiate', b'Basic\t' + code, b' Basic ' + code + b' '])
+        hs = {} if rnd.random() < 0.2 else {b'proxy-authorization': (rnd.choice([b'Proxy-Authorization', b'proxy-authorization']), val)}
+        if rnd.random() < 0.5:
+            hs[b'host'] = (b'Host', b'h')
+        req.headers = rnd.choice([hs, hs, None]) if not hs else hs
+        return o, {'request': req}
+    return {'AuthPlugin.before_upstream_connection': auth}
